@@ -134,9 +134,14 @@ func (fsm *FSM) applyRobustMessage(msg *robust.Message, i *ircserver.IRCServer, 
 			defer i.ConfigMu.Unlock()
 			i.Config = newCfg
 			i.Config.Revision = msg.Revision
-			fsm.sessionExpirationMu.Lock()
-			defer fsm.sessionExpirationMu.Unlock()
-			fsm.sessionExpirationDur = time.Duration(i.Config.SessionExpiration)
+			if i == ircServer {
+				// Only the configuration of the live server determines the
+				// compaction horizon: Snapshot also replays old Config
+				// messages into a temporary server while compacting them.
+				fsm.sessionExpirationMu.Lock()
+				defer fsm.sessionExpirationMu.Unlock()
+				fsm.sessionExpirationDur = time.Duration(i.Config.SessionExpiration)
+			}
 		}
 	}
 	return nil
